@@ -473,4 +473,10 @@ theorem recoverLegacy_sound (C : Curve) (raw : Bytes) (cid : Int) (a : Bytes) (t
     simp only [vNotLegacy, Bool.and_eq_false_iff, decide_eq_false_iff_not, Decidable.not_not] at hn1
     exact hn1
 
+/-! ### non-vacuity
+The soundness theorems above assume `recover… = .ok …`. Such inputs exist for every lawful curve, key, chain id and
+transaction meeting `C01.Fits`: `C01.recover_sign_1559`, `C01.recover_sign_eip155` and `C01.recover_sign_auto` prove
+`recoverRaw C (signTx C mode t k cid) cid = .ok (…)`; the last example of `Props/C01.lean` instantiates it with the
+lawful toy curve `C05.toyCurve` and a concrete transaction. -/
+
 end FFS.Props.C10
